@@ -340,14 +340,14 @@ func TestC03(t *testing.T) {
 	}()
 	for _, driver := range vlib.Drivers() {
 		driver := driver
-		parallelCases(vlib.Scale(1500, 30000), 8, func(i int) { c03Case(ev, driver, i) })
+		parallelCases(vlib.Scale(1500, 9000), 8, func(i int) { c03Case(ev, driver, i) })
 	}
 	<-binDone
 	for _, driver := range vlib.Drivers() {
 		driver := driver
-		parallelCases(vlib.Scale(12, 300), 4, func(i int) { contractEconomy(ev, "C03", driver, i) })
-		parallelCases(vlib.Scale(60, 1200), 4, func(i int) { c03BalanceReadFails(ev, driver, i) })
-		parallelCases(vlib.Scale(100, 3000), 4, func(i int) { c03ReconnectAfterBalanceChange(ev, driver, i) })
+		parallelCases(vlib.Scale(12, 60), 4, func(i int) { contractEconomy(ev, "C03", driver, i) })
+		parallelCases(vlib.Scale(60, 400), 4, func(i int) { c03BalanceReadFails(ev, driver, i) })
+		parallelCases(vlib.Scale(100, 1000), 4, func(i int) { c03ReconnectAfterBalanceChange(ev, driver, i) })
 	}
 	for _, driver := range vlib.Drivers() {
 		for _, nh := range []int{33, 40, 100} {
